@@ -21,7 +21,8 @@ RULE = ('elevation rasters 1x1 .. 7x7 (plus large-ish ones up to 24x24 quick / 6
         'negative-stride layouts, dimension names y,x / lat,lon / row,col / x,y) of every dtype uint8..uint64/int8..int64/float16/float32/float64 from the classes flat, ramps, '
         'small integers with ties, random floats, values >= 2^24, NaN/+-inf cells; cell size from res = scalar / (x,y) tuple / '
         'list / ndarray / unusable / absent with ascending or descending, integer or fractional coordinates, cx != cy; '
-        'call sequences (NumPy and Dask): a raster with coordinates and no res attribute is analysed, then rasters derived from that object '
+        'an exhaustive family of 3x3 windows with a single NaN at each of the 9 positions on flat / pure N-S ramp / pure E-W ramp / '
+        'E-W symmetric / N-S symmetric / random surfaces (exactly zero gradients), NumPy and Dask; call sequences (NumPy and Dask): a raster with coordinates and no res attribute is analysed, then rasters derived from that object '
         '(strided / reversed slices, assign_coords with rescaled coordinates, copy) — each must follow its OWN coordinates, equal a freshly '
         'built raster, and leave its input\'s attrs unchanged; hillshade azimuth/altitude grids incl. negative, > 360, random reals and the defaults left unset, name= given; cell sizes 1e-6 .. 1e5, '
         'uneven coordinates (mean spacing); the same stream Dask-backed (every dtype x single chunk / 1-cell chunks / uneven '
@@ -670,6 +671,37 @@ def theme_cases(rng, quick=True):
     return out
 
 
+def nan_window_family(rng, dt, chunks=None):
+    """one raster tiling 6 x 9 blocks of 3x3 cells: block (s, p) is surface s — flat, pure N-S ramp, pure E-W ramp, E-W symmetric,
+    N-S symmetric, random: windows where one or both gradients are EXACTLY zero — with a single NaN at window position p
+    (8 neighbours + centre).  The formula says NaN wherever an operand is NaN; the block centres (and every other interior cell)
+    go through the oracle and the model"""
+    nan = float('nan')
+    surfaces = []
+    surfaces.append([[7.0] * 3 for _ in range(3)])
+    k = float(rng.randint(1, 5))
+    surfaces.append([[k * r + 2.0] * 3 for r in range(3)])                      # N-S ramp: dz_dx == 0 exactly
+    surfaces.append([[k * c + 1.0 for c in range(3)] for _ in range(3)])        # E-W ramp: dz_dy == 0 exactly
+    a = [float(rng.randint(0, 30)) for _ in range(6)]
+    surfaces.append([[a[2 * r], a[2 * r + 1], a[2 * r]] for r in range(3)])     # E-W symmetric: dz_dx == 0
+    surfaces.append([[a[c], a[c + 1], a[c + 2]] if r != 1 else [a[3], a[4], a[5]] for r in range(3) for c in [0]])  # rows 0 and 2 equal
+    surfaces.append([[float(rng.randint(0, 60)) for _ in range(3)] for _ in range(3)])
+    data = [[0.0] * 27 for _ in range(18)]
+    for si, surf in enumerate(surfaces):
+        for p in range(9):
+            for r in range(3):
+                for c in range(3):
+                    v = nan if (r * 3 + c) == p else surf[r][c]
+                    data[3 * si + r][3 * p + c] = v
+    if dt == 'float32':
+        data = [[float(np.float32(v)) for v in r] for r in data]
+    case = dict(dtype=dt, kind='nan-window-family', data=data, res=dict(kind='pair', v=[2.0, 0.5], form='tuple'),
+                xs=list(range(27)), ys=list(range(18)), coords=False, dims=['y', 'x'], chunks=chunks,
+                params=dict(azimuth=rng.choice([225, 90, 0]), altitude=rng.choice([25, 45])))
+    case['exact'] = False
+    return case
+
+
 def run_lazy_after(ctx, m, consts, rng, pending):
     """lazy Dask results that are computed only AFTER other library calls (other rasters, other parameters, NumPy and Dask)"""
     c = new_case(rng, dt=rng.choice(['float32', 'int16', 'float64']), shape=(5, 6), kind='small')
@@ -1041,6 +1073,15 @@ def run(ctx, model=True):
     for _ in range(1 if ctx.quick() else 40):
         ctx.count('theme:lazy-after-other-calls')
         run_lazy_after(ctx, m, consts, rng, pending)
+    # ---- appended stream: a single NaN at each window position x surfaces with exactly zero gradients (54 windows per raster) ----
+    fam = [('float64', None), ('float32', None), ('float64', [[4, 5, 9], [7, 20]]), ('float32', [1, 1] if not ctx.quick() else [[9, 9], [13, 14]])]
+    if not ctx.quick():
+        fam = fam * 10
+    for dt, ch in fam:
+        c = nan_window_family(rng, dt, ch)
+        ctx.case(c)
+        ctx.count('nan-window-family:%s%s' % ('dask:' if ch is not None else '', dt))
+        run_case(ctx, m, consts, c, pending, meta=False)
     if model:
         compare_model(ctx, pending)
     ctx.exhaustive = False
